@@ -259,6 +259,85 @@ def run(chk: Check) -> None:
 
     asyncio.run(serial_part())
 
+    # ---- MQTT: the same lines wrapped as the gateway's JSON messages, through the real MqttTransport._on_message -------
+    async def mqtt_part() -> None:
+        import json as _json
+        from types import SimpleNamespace
+
+        import ramses_tx.transport as T
+        from ramses_tx.protocol import protocol_factory
+
+        from .c11 import StubClient
+
+        loop = asyncio.get_running_loop()
+        got: list = []
+        real_client = T.mqtt.Client
+        T.mqtt.Client = StubClient
+        try:
+            proto = protocol_factory(got.append, disable_sending=True)
+            tr = T.MqttTransport("mqtt://user:pw@localhost:1883/RAMSES/GATEWAY", proto, loop=loop)
+        finally:
+            T.mqtt.Client = real_client
+        tr._topic_sub = "RAMSES/GATEWAY/18:006402/rx"
+        tr._extra["active_gwy"] = "18:006402"
+        proto.connection_made(tr, ramses=True)
+        await asyncio.sleep(0)
+
+        def deliver(payload: bytes):
+            try:
+                tr._on_message(None, None, SimpleNamespace(topic="RAMSES/GATEWAY/18:006402/rx", payload=payload, timestamp=0))
+                return None
+            except Exception as e:  # noqa: BLE001
+                return e
+
+        n_m = 60 if not thorough else 900
+        for si in range(n_m):
+            lines = []
+            for _ in range(rnd.randint(3, 6)):
+                fr = rnd.choice(base)
+                r = rnd.random()
+                text = f"{rnd.choice(('045', '000', '067'))} {fr}" if r < 0.6 else (f"045 {rt.mutate(rnd, fr)}" if r < 0.8 else rnd.choice(("", "# evofw3", "!V", "045")))
+                ts = rnd.choice((STAMP, STAMP[:19], STAMP + "+01:00", "2024-01-01T12:00:00.5", "garbage", ""))
+                kind = rnd.random()
+                if kind < 0.8:
+                    env = _json.dumps({"msg": text, "ts": ts}).encode()
+                elif kind < 0.9:
+                    env = rnd.choice((b"{", b"not json", b"", b"\xff\xfe", _json.dumps({"msg": text, "ts": ts})[:-3].encode()))
+                elif kind < 0.94:
+                    env = rnd.choice((_json.dumps({"msg": text}), _json.dumps({"ts": ts}), _json.dumps([text, ts]), _json.dumps(text), "null", "5",
+                                      _json.dumps({"msg": None, "ts": ts}), _json.dumps({"msg": text, "ts": None}))).encode()
+                else:
+                    env = _json.dumps({"msg": text, "ts": ts, "extra": [1, {"a": None}]}).encode()
+                lines.append((text, ts, env))
+            # all in a row ...
+            got.clear()
+            escaped = [e for e in (deliver(env) for _t, _s, env in lines) if e is not None]
+            for _ in range(3):
+                await asyncio.sleep(0)
+            row = [str(m._pkt) for m in got]
+            chk.count("mqtt.delivered", len(row))
+            # ... and each on its own
+            alone = []
+            for _t, _s, env in lines:
+                got.clear()
+                deliver(env)
+                for _ in range(3):
+                    await asyncio.sleep(0)
+                alone += [str(m._pkt) for m in got]
+            chk.evaluations += 1
+            chk.count("mqtt.streams")
+            for e in escaped:
+                if not isinstance(e, ValueError):
+                    chk.violation(f"mqtt.escape:{type(e).__name__}", f"an MQTT message made {e!r} escape the receive path",
+                                  {"op": "mqtt", "messages": [env.decode("latin1") for _t, _s, env in lines]})
+                    break
+                chk.count("mqtt.valueerror")
+            if row != alone:
+                chk.violation("mqtt.independence", f"{len(lines)} MQTT messages in a row delivered {row}, one by one {alone}",
+                              {"op": "mqtt", "messages": [env.decode("latin1") for _t, _s, env in lines]})
+
+    asyncio.run(mqtt_part())
+
     # ---- file replay: bad lines interleaved with good ones --------------------------------------------------------
     n_files = 25 if not thorough else 300
     for fi in range(n_files):
